@@ -1,6 +1,7 @@
 """C07 - Altitude codes decode to the Annex 10 altitude, exhaustively."""
 import pyModeS as pms
 from ref import frames, gillham
+from vlib import variants
 from vlib.core import Leg, call
 
 PROPERTY = "C07"
@@ -75,8 +76,12 @@ def chk_carriers(case, note):
         fns = [("common.altcode", pms.common.altcode)]
         if df == 4:
             fns.append(("surv.altitude", pms.surv.altitude))
+        if (head ^ code) & 1:
+            variants.prelude(pms, msg)  # a receiver checks parity / address of the same string first
         for name, fn in fns:
             r = call(fn, msg)
+            if call(fn, msg) != r:
+                return "%s(%s) gives %r and then %r when called twice" % (name, msg, r, call(fn, msg))
             p = judge(r, code, "%s(%s)" % (name, msg))
             if p:
                 return p
